@@ -462,7 +462,8 @@ Definition event_eqb (a b : event) : bool :=
   | EBarLine i a1 a2 a3 a4, EBarLine i' b1 b2 b3 b4 => String.eqb i i' && Z.eqb a1 b1 && Z.eqb a2 b2 && Z.eqb a3 b3 && Z.eqb a4 b4
   | ENodeCircle i x y, ENodeCircle i' x' y' => String.eqb i i' && Z.eqb x x' && Z.eqb y y'
   | ESupport k x y, ESupport k' x' y' => Nat.eqb k k' && Z.eqb x x' && Z.eqb y y'
-  | ELoadGroup x y, ELoadGroup x' y' => Qle_bool (Qabs (x - x')) (1 # 500000) && Qle_bool (Qabs (y - y')) (1 # 500000)
+  | ELoadGroup x y c s, ELoadGroup x' y' c' s' => Qle_bool (Qabs (x - x')) (1 # 500000) && Qle_bool (Qabs (y - y')) (1 # 500000) &&
+      Qle_bool (Qabs (c - c')) (1 # 100000) && Qle_bool (Qabs (s - s')) (1 # 100000)
   | EPolygon a1 a2 a3 a4, EPolygon b1 b2 b3 b4 => Z.eqb a1 b1 && Z.eqb a2 b2 && Z.eqb a3 b3 && Z.eqb a4 b4
   | EEnd, EEnd => true
   | _, _ => false
